@@ -267,7 +267,7 @@ func (t *truth) gone(x int) map[int]bool {
 				// (links of its own referrers, i.e. subject links, do not hold it)
 				held := false
 				for _, p := range ps {
-					if !gone[p] && t.g.Nodes[p].Subject != i {
+					if !gone[p] && lists(t.g, p, i) {
 						held = true
 					}
 				}
@@ -290,6 +290,21 @@ func (t *truth) gone(x int) map[int]bool {
 		}
 	}
 	return gone
+}
+
+// lists: p links to y other than through its subject field (entries of manifests / layers /
+// config / blobs; a node that is both the subject and an entry is listed)
+func lists(g *dag.Graph, p, y int) bool {
+	n := 0
+	for _, s := range g.Nodes[p].Succ {
+		if s == y {
+			n++
+		}
+	}
+	if g.Nodes[p].Subject == y {
+		n--
+	}
+	return n > 0
 }
 
 // ---------- observation of the real store ----------
@@ -749,7 +764,7 @@ func runCaseAttempt(g *dag.Graph, ops []op, seed uint64, attempt int) {
 				continue
 			}
 			for _, p := range g.Preds(y) {
-				if expStored[p] && g.Nodes[p].Subject != y {
+				if expStored[p] && lists(g, p, y) {
 					fail("delete-removed-linked", fmt.Sprintf("op %d (%s): node %d was removed although surviving node %d lists it", oi, o, y, p))
 					failed = true
 				}
